@@ -588,8 +588,11 @@ def compare_with_native(d, key, info, call, H, samples, ns, pts, tol=1e-8, fail_
         except Exception:
             e2 = None
         extra['rel_err_with_contiguous_reorder'] = e2
+        cls = classify(extra) if (classify is not None and extra.get('exception')) else None
         if e2 is not None and e2 <= tol:
             fail_key = 'noncontiguous-phi-into-4D5D-kernel'
+        elif cls:
+            fail_key = cls            # an exception with a recognised cause is that cause, whatever else the history contains
         elif 'too many indices for array' in extra.get('exception', ''):
             # five demes alive, a branch (e.g. the frozen copy for an ancient sample) and an extinction at the same time: Demes.py applies the
             # branch first (a transient sixth deme: _split_phi has no 5 -> 6 case and returns phi unchanged while the label list grows), then
